@@ -199,3 +199,67 @@ def o14_6(tier):
         from .common import KEEP
         KEEP.append(ed)
     return [("triangle-with-a-negative-reference", h)]
+
+
+@obligation("O14.7", ["C14", "C09"], [SE + ":SurfaceEvolver.create_lattice"],
+            "create_lattice: after the cells are built, exactly the vertices and edges that belong to no face are dropped - also an edge a face refers to only "
+            "with a negative sign is kept, also a chord between two face vertices is dropped - and the remaining back-references are consistent", tier="Pn")
+def o14_7(tier):
+    def h(ctx):
+        from .common import mk_vertices, cls, stub_center, KEEP
+        stmts = ctx.fragment(SE, "SurfaceEvolver.create_lattice",
+                             ["cells = {}", "edges_in_cells = set()", "for _, r in self.get_cells().iterrows():", "vertex_to_delete = []",
+                              "for vid, v in vertices.items():", "for i in vertex_to_delete:", "for e in [e for e in edges if e not in edges_in_cells]:"])
+        stub_center(ctx)
+        E = cls(ctx, "forsys.edge", "SmallEdge")
+        ids = [4, 9, 6, 77, 78]
+        vs = mk_vertices(ctx, [(ctx.real(f"x{i}"), ctx.real(f"y{i}")) for i in ids], ids=ids)
+        V = dict(zip(ids, vs))
+        # face walk 4 -(5)-> 9 -(-8)-> 6 -(2)-> 4 : edge 8 is stored against the walk and referenced ONLY negatively
+        spec = {5: (4, 9), 8: (6, 9), 2: (6, 4), 11: (4, 9), 12: (9, 77)}      # 11: second (chord-like) edge in no face, 12: dangling edge to an orphan
+        vertices = ctx.dict([(i, V[i]) for i in ids])
+        edges = ctx.dict()
+        for eid, (a, b) in spec.items():
+            if ctx.mode == "sym":
+                ctx.it.dict_set(edges, eid, ctx.call(E, eid, V[a], V[b]))
+            else:
+                edges[eid] = ctx.call(E, eid, V[a], V[b])      # no other reference: `del edges[k]` must finalise the edge (A-gc)
+        pressure = ctx.real("p")
+        if ctx.mode == "sym":
+            from fvc.lib import ModelFn
+            from fvc import interp as II
+
+            class Row:
+                def fvc_getattr(self, it, name):
+                    return {"edges": [5, -8, 2], "id": 3}[name]
+
+                def fvc_getitem(self, it, key):
+                    return pressure
+
+            class DF:
+                def fvc_getattr(self, it, name):
+                    return ModelFn("iterrows", lambda it_: [(0, Row())])
+
+            class Self:
+                def fvc_getattr(self, it, name):
+                    return ModelFn("get_cells", lambda it_: DF())
+            me = Self()
+        else:
+            pd = ctx.module("pandas")
+
+            class Self:
+                def get_cells(self_):
+                    return pd.DataFrame({"id": [3], "edges": [[5, -8, 2]], "pressures": [pressure]})
+            me = Self()
+        out = ctx.run_fragment(SE, stmts, dict(vertices=vertices, edges=edges, self=me))
+        ek, vk = ctx.keys(out["edges"]), ctx.keys(out["vertices"])
+        ctx.ensure(sorted(ek) == [2, 5, 8], "edges kept = the face's edges (incl. the one referenced only as -8); chord 11 and dangling 12 dropped")
+        ctx.ensure(sorted(vk) == [4, 6, 9], "vertices kept = the face's vertices; orphans 77, 78 dropped")
+        want = {4: [2, 5], 9: [5, 8], 6: [2, 8]}
+        for vid in (4, 9, 6):
+            ctx.ensure(sorted(ctx.list_of(ctx.get(ctx.item(out["vertices"], vid), "ownEdges"))) == want[vid], f"vertex {vid} lists exactly its remaining edges")
+        cyc = [ctx.get(v, "id") for v in ctx.list_of(ctx.get(ctx.item(out["cells"], 3), "vertices"))]
+        ctx.ensure(cyc == [4, 9, 6], "cell cycle = tail vertices of the signed loop")
+        if ctx.mode != "sym":
+            KEEP.append(out)
+    return [("triangle+chord+dangling+orphans", h)]
